@@ -100,7 +100,7 @@ THEOREMS = ["T_ActsOnPoints: Point(result, prm) = Map(Point(original, prm)) at e
 
 
 def run(ctx):
-    res = core.run_tlc("MC_C10", "MC_C10_%s.cfg" % ctx.tier, timeout=1800)
+    res = core.run_model(ctx, "MC_C10", 1800, thorough_seeds=(2, 3, 5))
     core.tlc_must_pass(res, "MC_C10")
     ctx.add_tlc(res, "every shape/container x map x argument x inplace flag")
     ctx.theorems = THEOREMS
